@@ -19,6 +19,8 @@ RULES = {
     'STRONG-SINK': 'every Sink constructor reaches Sink.__init__ (registering in _global_sinks); Sink.destroy unregisters and '
                    'unlinks',
     'DESTROY-SUPER': 'every destroy() override reaches the base destroy() on every normal path',
+    'EDIT-ATOMIC': 'connect/disconnect/destroy edit an edge in two steps; the hook that runs second contains no reachable explicit raise '
+                   '(a refusal after the first end was already edited leaves the two ends disagreeing)',
     'EMIT-CURRENT': 'Stream._emit iterates the current downstreams (a snapshot taken at emission time, not a cached list)',
 }
 
@@ -522,3 +524,101 @@ def check_none_sentinel(ctx, R, classes):
                  'the optional argument `%s` is tested with `is None` in %s but for truthiness in %s: a falsy value (0, empty) '
                  'is treated as absent there' % (key, ident[0][1].qual, ', '.join(sorted({u[1].qual for u in truth}))),
                  ctx.where(truth[0][1], truth[0][2].lineno) if truth else None)
+
+
+# ----------------------------------------------------------------------------- EDIT-ATOMIC
+def _sequence_shaped(ctx, cls, field, depth=0):
+    """every in-package store of self.<field> (methods of the class and its bases), on the normal form of the storing
+    method, is a sequence: a tuple/list literal or comprehension, tuple()/list()/sorted(), the method's *args, or another
+    sequence-shaped field. (None when some store is something else / cannot be evaluated.)"""
+    from ..symexpr import SymEval
+    if depth > 2:
+        return False
+    M = ctx.model
+    n = 0
+    for c in cls.mro:
+        if not c.module.name.startswith('streamz'):
+            continue
+        for mname, fn in c.methods.items():
+            if not any(isinstance(x, (ast.Assign, ast.AugAssign, ast.AnnAssign)) and any(
+                    self_field(t) == field and isinstance(t, ast.Attribute)
+                    for t in (x.targets if isinstance(x, ast.Assign) else [x.target])) for x in own_nodes(fn.node)):
+                continue
+            va = fn.node.args.vararg.arg if fn.node.args.vararg else None
+            try:
+                recs = SymEval(M, cls).run(fn)
+            except AnalysisError:
+                return False
+            for r in recs:
+                for f, v, _s, _l in r.stores:
+                    if f != field:
+                        continue
+                    n += 1
+                    ok = isinstance(v, (ast.Tuple, ast.List, ast.ListComp)) or \
+                        (isinstance(v, ast.Call) and isinstance(v.func, ast.Name) and v.func.id in ('tuple', 'list', 'sorted')) or \
+                        (isinstance(v, ast.Name) and v.id == va) or \
+                        (self_field(v) is not None and isinstance(v, ast.Attribute) and self_field(v) != field
+                         and _sequence_shaped(ctx, cls, self_field(v), depth + 1))
+                    if not ok:
+                        return False
+    return n > 0
+
+
+def check_edit_atomic(ctx, R, classes):
+    """Stream.connect / disconnect / destroy call one hook on each end of the edge. Whatever hook runs second must not refuse:
+    on the symbolic paths of every override of that hook, a path ending in an explicit `raise` is accepted only when one of its
+    tests is dead by shape (`self.<sequence-shaped field> == <the node handed in>`: nodes define no __eq__, a tuple/list never
+    equals a node)."""
+    from ..symexpr import SymEval
+    M = ctx.model
+    HOOKS = ('_add_downstream', '_add_upstream', '_remove_downstream', '_remove_upstream')
+    second = {}
+    for entry in ('connect', 'disconnect', 'destroy'):
+        fn = M.stream.methods.get(entry)
+        if fn is None:
+            raise AnalysisError('anchor vanished: Stream.' + entry)
+        for r in SymEval(M, M.stream, name_calls=True, no_splice=HOOKS).run(fn):
+            seen = []
+            for kind, k in r.order:
+                if kind != 'call':
+                    continue
+                c = r.calls[k][0]
+                if isinstance(c, ast.Call) and isinstance(c.func, ast.Attribute) and c.func.attr in HOOKS:
+                    h = c.func.attr
+                    if any(h0 != h for h0 in seen):
+                        second.setdefault(h, entry)
+                    seen.append(h)
+    if not second:
+        raise AnalysisError('Stream.connect/disconnect/destroy: no two-step edge edit found (unrecognised spelling)')
+    eq_definers = [c.fq for c in M.nodes if '__eq__' in c.methods]
+    for h, entry in sorted(second.items()):
+        for cls in classes:
+            fn = cls.methods.get(h)
+            if fn is None:
+                continue
+            params = [p_ for p_ in fn.params() if p_ != 'self']
+            bad, n = None, 0
+            try:
+                recs = SymEval(M, cls).run(fn)
+            except AnalysisError as e:
+                raise AnalysisError('%s: %s' % (ctx.construct(fn), e))
+            for r in recs:
+                n += 1
+                if not r.raised:
+                    continue
+                dead = False
+                for t, o in r.conds:
+                    k = t.replace(' ', '')
+                    for p_ in params:
+                        for pat, want in (('self.%s==' + p_, True), (p_ + '==self.%s', True), ('self.%sis' + p_, True)):
+                            m = None
+                            head, tail = pat.split('%s')
+                            if k.startswith(head) and k.endswith(tail) and len(k) > len(head) + len(tail):
+                                m = k[len(head):len(k) - len(tail)] if tail else k[len(head):]
+                            if m and m.isidentifier() and o is want and not eq_definers and _sequence_shaped(ctx, cls, m):
+                                dead = True
+                if not dead:
+                    bad = '; '.join('%s is %s' % c for c in r.conds) or 'unconditionally'
+            R.ob('EDIT-ATOMIC', ctx.construct(fn), 'second-step-cannot-refuse', bad is None,
+                 '%s runs second in Stream.%s (the other end of the edge was already edited) but can refuse with an explicit raise '
+                 '[%s]: the two ends of the edge then disagree' % (h, entry, bad), ctx.where(fn, fn.node.lineno), None, n)
